@@ -5,14 +5,14 @@ from symlib import *
 
 ID = "C17"
 COQ_FILES = symlib.COQ_FILES + ["Props/C17.v", "Props/C17_repaired.v"]
-PROPS = "Props/C17_repaired.v" if REPAIRED else "Props/C17.v"
+PROPS = "Props/C17_repaired.v" if EXT_REPAIRED else "Props/C17.v"
 THEOREMS_ASIS = ["C17_failed_import_is_noop_refuted_extnum", "C17_failed_import_is_noop_refuted_deps",
                  "C17_failed_import_is_noop_refuted_packages", "C17_failed_import_repeats_refuted",
                  "C17_failed_import_is_noop_partial", "C17_failed_import_repeats_partial",
                  "C17_failed_package_collision_keeps_table"]
 THEOREMS_REPAIRED = ["C17r_failed_import_is_noop", "C17r_failed_import_repeats",
                      "C17r_failed_import_is_noop_refuted_deps", "C17r_failed_import_is_noop_refuted_packages"]
-THEOREMS = THEOREMS_REPAIRED if REPAIRED else THEOREMS_ASIS
+THEOREMS = THEOREMS_REPAIRED if EXT_REPAIRED else THEOREMS_ASIS
 AXIOMS_OK = []
 TRUSTED = ["hand-written Gallina model of linker/symbols.go (Model/Symbols.v): package trie as a flat store, Import = importPackages, "
            "recursive import of the dependencies, check-then-commit, AddExtension per extension field; Lookup / LookupExtension",
@@ -234,7 +234,7 @@ def oracle(ctx, inp, out):
 def run(ctx):
     rng = ctx.rng
     cases = [fill(c) for c in CORPUS]
-    for _ in range(ctx.budget(300, 20000)):
+    for _ in range(ctx.budget(300, 6000)):
         cases.append(gen_case(rng, addext=rng.chance(1, 4)))
     ins = [c[0] for c in cases]
     outs = ctx.impl("symbols", ins)
